@@ -9,3 +9,5 @@ const verifEnabled = false
 func verifTick(*vm) {}
 
 func verifForceRealloc(*valueStack, int) bool { return false }
+
+func verifReallocStacks(*vm) {}
